@@ -63,6 +63,12 @@ func datumVal(typ metrics.Type, d datum.Datum) int64 {
 func datumSec(d datum.Datum) int64 { return d.TimeUTC().Unix() }
 
 func c09Run(r *runCtx, id string, f []string) {
+	if f[0] == "conc" {
+		// one new tuple looked up by several goroutines at once names one datum, as any sequential
+		// order of the lookups does (the case C08 has, run for the map property too)
+		c08Run(r, id, f)
+		return
+	}
 	kindN, _ := strconv.Atoi(f[1])
 	typN, _ := strconv.Atoi(f[2])
 	nkeys, _ := strconv.Atoi(f[3])
@@ -252,6 +258,9 @@ var c09Universe = [][]string{{"a"}, {"-"}, {"a-"}, {"\\"}, {""}, {"a\\-"}, {"\xf
 func init() {
 	props["C09"] = &propImpl{
 		gen: func(g *genCtx) {
+			for i, t := range [][]string{{"a"}, {"a", "-"}, {"x", "y", "z"}, {"-"}, {"a-", "b"}, {"k"}} {
+				g.emit("conc", hxs(t), strconv.Itoa([]int{2, 4, 8, 16}[i%4]), "300")
+			}
 			// exhaustive: all sequences up to length L over 3 tuples of a 1-key metric
 			tu := []string{hxs([]string{"a"}), hxs([]string{"-"}), hxs([]string{"a-"})}
 			var alphabet []string
